@@ -293,7 +293,10 @@ def _batch(mod: Any, env: Any, a: Any) -> int:
         cases = []
         for i in chunk:
             rs = core.derive_seed(a.seed, a.check, a.tier, i)
-            cases.append((i, rs, mod.gen_case(rs, a.tier, index=i) if getattr(mod, "GEN_TAKES_INDEX", False) else mod.gen_case(rs, a.tier)))
+            try:
+                cases.append((i, rs, mod.gen_case(rs, a.tier, index=i) if getattr(mod, "GEN_TAKES_INDEX", False) else mod.gen_case(rs, a.tier)))
+            except Exception:  # noqa: BLE001 - a generator defect costs one run, not the worker's whole share
+                emit({"i": i, "seed": rs, "verdict": "harness_error", "trace": "gen_case failed: " + traceback.format_exc()[-800:], "digest": "", "counters": {}})
         if hasattr(mod, "prepare") and getattr(env, "zygote", None) is None:
             mod.prepare(env, [c for _, _, c in cases])
         for i, rs, case in cases:
